@@ -1407,6 +1407,9 @@ impl LpgStore {
             index.resize(label_id as usize + 1, FxHashMap::default());
         }
         index[label_id as usize].insert(node_id, ());
+        // Release before taking `nodes` (lock order: nodes before label_index, see struct docs);
+        // holding it here deadlocks against delete_node, which takes nodes -> label_index.
+        drop(index);
 
         // Update label count in node record
         if let Some(chain) = self.nodes.write().get_mut(&node_id)
@@ -1515,6 +1518,8 @@ impl LpgStore {
         if (label_id as usize) < index.len() {
             index[label_id as usize].remove(&node_id);
         }
+        // Release before taking `nodes` (lock order: nodes before label_index, see struct docs)
+        drop(index);
 
         // Update label count in node record
         if let Some(chain) = self.nodes.write().get_mut(&node_id)
